@@ -17,7 +17,7 @@ pub const ASSUMPTIONS: &[&str] = &[
     "a generated text the parser rejects is a generator defect: counted, never a violation",
 ];
 
-pub const RULE: &str = "(a) the .ak files shipped under examples/ and benchmarks/; (b) modules printed from the typed generator (see C01: when/if/expect/records/pipes/captures/lambdas, literals in hex / underscore / byte-array notations); (c) an untyped expression grammar over all binary operators with parentheses placed at random (every precedence / associativity pairing with and without parentheses), unary operators, pipes, captures incl. record constructors with labelled holes, record construction / update / punning, tuples, lists with spread, if / when / and / or blocks, trace / todo / fail, strings with escapes; line, doc and module comments inserted at random line boundaries of (b) and (c). Non-trivial = the module contains a nested binary expression of depth >= 3 with mixed operators, or a comment, or a capture; distinct by source text.";
+pub const RULE: &str = "(a) the .ak files shipped under examples/ and benchmarks/; (b) modules printed from the typed generator (see C01: when/if/expect/records/pipes/captures/lambdas, literals in hex / underscore / byte-array notations); (c) an untyped expression grammar over all binary operators with parentheses placed at random (every precedence / associativity pairing with and without parentheses), unary operators, pipes, captures incl. record constructors with labelled holes, record construction / update / punning, field access / tuple index / call on parenthesised compound receivers, backpassing, integer literals with thousands separators and signs (also in patterns), tuples, lists with spread, if / when / and / or blocks, trace / todo / fail, strings with escapes; line, doc and module comments inserted at random line boundaries of (b) and (c). Non-trivial = the module contains a nested binary expression of depth >= 3 with mixed operators, or a comment, or a capture; distinct by source text.";
 
 pub const KNOWN_TRAILING: &str = "formatter:trailing-comment-not-idempotent";
 
@@ -164,8 +164,29 @@ impl G<'_, '_> {
         self.src.pick(&["a", "b", "c", "d", "xs", "foo", "bar_baz", "x1"]).to_string()
     }
 
+    /// a decimal literal with 1-9 digits, `_` separators at the thousands positions (the only
+    /// grouping the formatter can reproduce) and no leading zero
+    fn grouped_int(&mut self) -> String {
+        let n = 1 + self.src.below(9);
+        let digits: String = (0..n).map(|i| if i == 0 { char::from(b'1' + self.src.below(9) as u8) } else { char::from(b'0' + self.src.below(10) as u8) }).collect();
+        if n > 3 && self.src.chance(2, 3) {
+            let mut out = String::new();
+            for (i, c) in digits.chars().enumerate() {
+                if i > 0 && (n - i) % 3 == 0 {
+                    out.push('_');
+                }
+                out.push(c);
+            }
+            out
+        } else {
+            digits
+        }
+    }
+
     fn literal(&mut self) -> String {
-        match self.src.below(12) {
+        match self.src.below(14) {
+            12 => self.grouped_int(),
+            13 => format!("-{}", self.grouped_int()),
             0 => "0".into(),
             1 => format!("{}", self.src.below(1000)),
             2 => format!("0x{:x}", self.src.below(70000)),
@@ -198,6 +219,20 @@ impl G<'_, '_> {
                 let r = if op == "|>" { format!("{}({})", self.ident(), self.expr(d.min(1))) } else { self.expr(d) };
                 let r = if op == "|>" { r } else { self.maybe_paren(r) };
                 format!("{l} {op} {r}")
+            }
+            1 if self.src.chance(1, 3) => {
+                // an access or a call applied to a parenthesised compound receiver
+                let recv = match self.src.below(4) {
+                    0 => format!("{} |> {}()", self.ident(), self.ident()),
+                    1 => format!("{} + {}", self.ident(), self.literal()),
+                    2 => format!("-{}", self.ident()),
+                    _ => format!("{}?", self.ident()),
+                };
+                match self.src.below(3) {
+                    0 => format!("({recv}).{}", self.src.pick(&["field", "i", "b"])),
+                    1 => format!("({recv}).{}", self.src.pick(&["1st", "2nd", "3rd"])),
+                    _ => format!("({recv})({})", self.expr(d.min(1))),
+                }
             }
             1 => {
                 let e = self.expr(d);
@@ -339,6 +374,10 @@ impl G<'_, '_> {
 
     fn pattern(&mut self, depth: usize) -> String {
         if depth == 0 {
+            if self.src.chance(1, 6) {
+                let lit = self.grouped_int();
+                return if self.src.bool() { format!("-{lit}") } else { lit };
+            }
             return self.src.pick(&["x", "_", "_ignored", "0", "True", "None"]).to_string();
         }
         match self.src.below(12) {
@@ -399,6 +438,14 @@ impl G<'_, '_> {
                 1 => {
                     let e = self.expr(depth.min(1));
                     s.push_str(&format!("expect Some(v{k}) = {e}\n"));
+                }
+                2 if self.src.chance(1, 3) => {
+                    let call = format!("{}({})", self.ident(), self.ident());
+                    match self.src.below(3) {
+                        0 => s.push_str(&format!("let v{k} <- {call}\n")),
+                        1 => s.push_str(&format!("expect True <- {call}\n")),
+                        _ => s.push_str(&format!("expect Some(v{k}) <- {call}\n")),
+                    }
                 }
                 2 => {
                     let e = self.ident();
